@@ -1,10 +1,12 @@
 #!/usr/bin/env python3
-"""usage: mkoverlay.py <outdir> [--sync file ...] [--lru]
+"""usage: mkoverlay.py <outdir> [--sync file ...] [--modsync module file ...] [--lru]
 Writes <outdir>/overlay.json for `go build -overlay`:
  * every --sync file (path relative to the repository) is copied from the repository's CURRENT
    working tree with its `"sync"` import rewritten to the scheduler-aware virtual package
    github.com/cossacklabs/acra/verifsync (nothing else changes, so an edit in those files is
    what gets compiled);
+ * --modsync <module> <file...>: the same rewrite for files of a dependency (version taken from the
+   repository's go.mod, source from the module cache), e.g. go.etcd.io/bbolt db.go;
  * the virtual package itself is added to the acra module;
  * --lru replaces github.com/golang/groupcache/lru/lru.go by an instrumented copy that reports
    every cache operation to a hook (access monitor of E1).
@@ -18,12 +20,19 @@ root = os.environ.get("VERIF_ROOT", os.path.dirname(os.path.dirname(os.path.absp
 os.makedirs(out, exist_ok=True)
 replace = {}
 sync_files, lru = [], False
+mod_files = []  # (module, file)
 i = 0
 while i < len(args):
     if args[i] == "--sync":
         i += 1
         while i < len(args) and not args[i].startswith("--"):
             sync_files.append(args[i]); i += 1
+        continue
+    if args[i] == "--modsync":
+        mod = args[i + 1]
+        i += 2
+        while i < len(args) and not args[i].startswith("--"):
+            mod_files.append((mod, args[i])); i += 1
         continue
     if args[i] == "--lru":
         lru = True
@@ -36,6 +45,37 @@ for rel in sync_files:
     dst = os.path.join(out, rel.replace("/", "__"))
     open(dst, "w").write(new)
     replace[os.path.join(repo, rel)] = dst
+for mod, rel in mod_files:
+    m = re.search(r'(?m)^\s*%s (v\S+)' % re.escape(mod), open(os.path.join(repo, "go.mod")).read())
+    if not m:
+        sys.exit("mkoverlay: %s not found in go.mod" % mod)
+    path = os.path.expanduser("~/go/pkg/mod/%s@%s/%s" % (mod, m.group(1), rel))
+    if not os.path.exists(path):
+        sys.exit("mkoverlay: %s not in the module cache" % path)
+    src = open(path).read()
+    # a dependency cannot import a package of the acra module (and the go command does not accept
+    # new package directories inside the module cache): the lock types are added to the
+    # dependency's own file and sync.Mutex / sync.RWMutex are renamed
+    new, n1 = re.subn(r'\bsync\.Mutex\b', 'verifMutex', src)
+    new, n2 = re.subn(r'\bsync\.RWMutex\b', 'verifRWMutex', new)
+    if n1 + n2 == 0:
+        sys.exit("mkoverlay: %s: no sync.Mutex / sync.RWMutex to rewrite" % path)
+    # the lock types are appended to the same file (a new file in a module-cache directory is not
+    # seen by the go command's module index)
+    shim = open(os.path.join(root, "shim", "overlay", "verifsync", "sync.go")).read()
+    shim = shim[shim.index("// AcquireHook"):]
+    shim = "var (\n" + shim[shim.index("\tAcquireHook"):]
+    shim = re.sub(r'(?s)type \(\n.*?\n\)\n', '', shim)  # aliases of the other sync types are not needed
+    shim = shim.replace('sync.Mutex', '@@M@@').replace('sync.RWMutex', '@@RW@@')
+    shim = re.sub(r'\bRWMutex\b', 'verifRWMutex', shim)
+    shim = re.sub(r'\bMutex\b', 'verifMutex', shim)
+    shim = shim.replace('"verifMutex"', '"Mutex"').replace('"verifRWMutex"', '"RWMutex"')
+    shim = shim.replace('@@M@@', 'sync.Mutex').replace('@@RW@@', 'sync.RWMutex')
+    shim = shim.replace('AcquireHook', 'VerifAcquireHook').replace('ReleaseHook', 'VerifReleaseHook')
+    new += "\n// ---- added by the /verif build overlay: scheduler-aware lock types ----\n\n" + shim
+    dst = os.path.join(out, (mod + "/" + rel).replace("/", "__"))
+    open(dst, "w").write(new)
+    replace[path] = dst
 replace[os.path.join(repo, "verifsync", "sync.go")] = os.path.join(root, "shim", "overlay", "verifsync", "sync.go")
 if lru:
     m = re.search(r'github.com/golang/groupcache (v\S+)', open(os.path.join(repo, "go.mod")).read())
